@@ -197,7 +197,11 @@ def run_arith(sc, V, stats):
                 stats["hmc_step_exhausted"] += 1
                 break
             except rctx.Runaway as e:
-                V.append(lc.runaway_violation(h, op, e))
+                rv_ = lc.runaway_violation(h, op, e)
+                if rv_ is not None:
+                    V.append(rv_)
+                else:
+                    stats["runaway_with_adaptation_frozen_by_harness"] += 1
                 break
             n1 = h.length()
             if n1 - n0 != m * per:
@@ -334,7 +338,11 @@ def run_timed(sc, V, stats):
                 stats["hmc_step_exhausted"] += 1
                 return c, clock
             except rctx.Runaway as e:
-                V.append(lc.runaway_violation(h, "run_for(%r)" % (kw,), e))
+                rv_ = lc.runaway_violation(h, "run_for(%r)" % (kw,), e)
+                if rv_ is not None:
+                    V.append(rv_)
+                else:
+                    stats["runaway_with_adaptation_frozen_by_harness"] += 1
                 return c, clock
             finally:
                 clock.disarm()
